@@ -299,6 +299,15 @@ def job_nested(job):
                 for kw in ({}, {"n_jobs": 4}, {"n_jobs": -1, "prefer": "processes"}, {"n_jobs": 2, "require": "sharedmem"}, {"prefer": "threads"}):
                     p = call(lambda: Parallel(**kw))
                     seen.append([c, l, kw, p if isinstance(p, str) else [LET[type(p._backend).__name__], p._backend.nesting_level, p.n_jobs]])
+                # a configuration context that names NO backend (backend=None, the documented default of the parameter), entered
+                # inside the worker: if the tree accepts it, the nesting rules still decide what a Parallel call there gets
+                for ckw in ({"backend": None}, {"backend": None, "n_jobs": 2}):
+                    try:
+                        with parallel_config(**ckw):
+                            p = Parallel(n_jobs=2)
+                            seen.append([c, l, dict(context=repr(ckw)), [LET[type(p._backend).__name__], p._backend.nesting_level, p.n_jobs]])
+                    except Exception:  # rejected: nothing is started, nothing to judge
+                        pass
     return dict(nested=out, seen=seen)
 
 def probe(depth, limit, n_jobs, explicit, sleep):
